@@ -146,6 +146,25 @@ theorem min_max_fo_literal (isMax : Bool) (a : Atom) (rest : Seq)
   rw [minMaxCore_eq isMax _ hout]
   exact minMaxCore_fo_literal isMax a rest hout hnum hdbl hnan hmono
 
+/-- **Unconditional** for the values whose promotion is exact (xs:double values and integers up to
+2^53 in magnitude): fn:max / fn:min return an item of the converted sequence such that no other
+converted item is greater (less).  The hypothesis of `min_max_fo_literal` is needed only where
+the promotion rounds (larger integers, xs:decimal values). -/
+theorem min_max_fo_literal_exact (isMax : Bool) (a : Atom) (rest : Seq)
+    (hex : (a :: rest).all exactlyPromotable = true)
+    (hdbl : Spec.anyDouble (a :: rest) = true) (hnan : (a :: rest).any (· == Atom.dbl .nan) = false) :
+    ∃ r, minMaxCore isMax (a :: rest) = .ok [.dbl r] ∧ Spec.IsExtremeOfConverted isMax (a :: rest) r := by
+  have hall := List.all_eq_true.mp hex
+  have hout : Spec.outsideAgg (a :: rest) = false := by
+    unfold Spec.outsideAgg; rw [List.any_eq_false]; intro x hx
+    have := hall x hx
+    cases x <;> simp_all [exactlyPromotable]
+  have hnum : Spec.allKind .num (a :: rest) = true := by
+    unfold Spec.allKind; rw [List.all_eq_true]; intro x hx
+    have := hall x hx
+    cases x <;> simp_all [exactlyPromotable, Spec.kind]
+  exact min_max_fo_literal isMax a rest hout hnum hdbl hnan (promotionMonotoneOn_of_exact _ hex)
+
 set_option maxRecDepth 8000 in
 /-- the hypothesis holds on a non-trivial input: `(9007199254740993, 9007199254740992e0, 0.5)` —
 the integer 2^53 + 1 is rounded to 2^53 and ties with the double -/
